@@ -389,6 +389,12 @@ def check_closure_protocol(a, cl, region=None):
     # absolute cursor stores (position upvar -> constant c of `*pos = i + c`) and the index-addressed slots they refer to: whether the constant
     # fits the traversal direction and the kind of position is the parent's obligation (ownership.link_closure)
     info["abs"] = {e[3][0]: e[3][1][1] for evs in by_bb.values() for e in evs if e[2] == "inc" and isinstance(e[3][1], tuple)}
+    # relative advances per position (+1 / -1): whether the sign fits the kind of position and the direction of travel is the parent's obligation
+    info["deltas"] = {}
+    for evs in by_bb.values():
+        for e in evs:
+            if e[2] == "inc" and not isinstance(e[3][1], tuple):
+                info["deltas"].setdefault(e[3][0], set()).add(e[3][1])
     info["indexed"] = list(getattr(a, "indexed_slots", [])) if region is None else []
     info["enum_abs"] = bool(getattr(a, "enum_abs", False)) if region is None else False
     info["cursors"] = list(getattr(a, "cursor_slots", [])) if region is None else []
